@@ -18,17 +18,10 @@ func readTlvStream(
 	tlvOff := 0
 
 	for {
-		readSize, err := reader.Read(recvBuf[recvOff:])
+		// A reader may return bytes together with an error (io.Reader): the bytes
+		// are processed first, the error is looked at below.
+		readSize, readErr := reader.Read(recvBuf[recvOff:])
 		recvOff += readSize
-		if err != nil {
-			if ignoreError != nil && ignoreError(err) {
-				continue
-			}
-			if errors.Is(err, io.EOF) {
-				return nil
-			}
-			return err
-		}
 
 		// Determine whether valid packet received
 		for {
@@ -76,6 +69,16 @@ func readTlvStream(
 			copy(recvBuf, recvBuf[tlvOff:recvOff])
 			recvOff -= tlvOff
 			tlvOff = 0
+		}
+
+		if readErr != nil {
+			if ignoreError != nil && ignoreError(readErr) {
+				continue
+			}
+			if errors.Is(readErr, io.EOF) {
+				return nil
+			}
+			return readErr
 		}
 	}
 }
